@@ -12,7 +12,9 @@ use simcore::Sim;
 /// order (exactly these — no more, no fewer — when `exact`; a prefix-free equality otherwise).
 pub fn check_message_bytes(sim: &Sim, who: &str, data: &[u8], announced: Option<Enc>, expect: &[Vec<u8>], exact: bool) {
     let (frames, end) = indep::parse_frames(data);
-    if let ParseEnd::Truncated { at } = end {
+    // a partial tail is a framing defect only when the body was carried to its end
+    if let (ParseEnd::Truncated { at }, true) = (&end, exact) {
+        let at = *at;
         sim.violation("C03/body-not-well-framed", format!("{who}: {} body bytes do not parse as length-prefixed messages: trailing partial frame at offset {at}", data.len()));
         return;
     }
